@@ -148,6 +148,32 @@ func OnceDo(o *sync.Once, f func()) {
 	SyncAcquire(unsafe.Pointer(o))
 }
 
+// OnceFunc, OnceValue and OnceValues stand in for the sync functions of the same name
+// (a real sync.Once inside them would block a parked task's goroutine for real).
+func OnceFunc(f func()) func() {
+	o := new(sync.Once)
+	return func() { OnceDo(o, f) }
+}
+
+func OnceValue[T any](f func() T) func() T {
+	o := new(sync.Once)
+	var v T
+	return func() T {
+		OnceDo(o, func() { v = f() })
+		return v
+	}
+}
+
+func OnceValues[T1, T2 any](f func() (T1, T2)) func() (T1, T2) {
+	o := new(sync.Once)
+	var v1 T1
+	var v2 T2
+	return func() (T1, T2) {
+		OnceDo(o, func() { v1, v2 = f() })
+		return v1, v2
+	}
+}
+
 // AtomicOp is recorded before a statement that performs a sync/atomic
 // operation, a sync.Map method or a sync.Pool Get/Put on *p. The object is
 // treated as acquire+release both here and again at the task's next step point
